@@ -68,7 +68,7 @@ def gen_workload(tape):
     ops = []
     for _ in range(tape.count(4, 10, "nops", (4, 5))):
         kinds = ["closest", "closest", "closest", "getitem", "create", "delete",
-                 "closest", "reset_cache"]
+                 "closest", "reset_cache", "set_coverage"]
         if w["backend"] == "zip":
             kinds = ["closest", "closest", "getitem"]
         o = {"op": tape.pick(kinds, "op")}
@@ -82,6 +82,8 @@ def gen_workload(tape):
                              t1=fs[0]["t1"].isoformat()) if fs else None
         elif o["op"] == "delete":
             o["idx"] = tape.choice(20, "didx")
+        elif o["op"] == "set_coverage":
+            o["tcov"] = tape.pick([None, 60, 3600, 600], "ntcov")
         ops.append(o)
     w["ops"] = ops
     w["exclude_names"] = [tape.choice(20, "exn") for _ in range(tape.count(0, 2, "nexn", (1, 3)))]
@@ -146,7 +148,7 @@ class Run(C1.Run):
 
     def op(self, i, o):
         kind = o["op"]
-        if kind in ("create", "delete", "reset_cache"):
+        if kind in ("create", "delete", "reset_cache", "set_coverage"):
             return super().op(i, o)
         w = self.w
         NoFilesError = F._T["NoFilesError"]
